@@ -367,8 +367,11 @@ Fixpoint run_ae (recomp : bool) (ce ct cc content : str) (aes rngs : list str) (
     | None =>
       let d := ae_delivered recomp (ae_value ae) ce ct cc in
       (match rr with
-       | Some _ => if str_eqb d ce && negb (nonempty ce) then ae_ranged content rr (bytes "miss") 1
-                   else ae_obs 200 d content (bytes "miss") 1 (-1) (-1)
+       | Some _ =>
+         (* the range is cut out of the body as the origin sent it - identity bytes, or a part of its encoded bytes -
+            unless the body is recompressed (added or removed coding): then the complete response is sent *)
+         if str_eqb d ce then (if nonempty ce then s_enc_slice else ae_ranged content rr (bytes "miss") 1)
+         else ae_obs 200 d content (bytes "miss") 1 (-1) (-1)
        | None => ae_obs 200 d content (bytes "miss") 1 (-1) (-1)
        end) :: run_ae recomp ce ct cc content rest (tl rngs) ((ae, d) :: seen)
     end
@@ -382,9 +385,9 @@ Definition run_aecache (x : sx) : sx :=
    that its Content-Range span, its Content-Length and the bytes received agree (or that it is a 416) *)
 Definition ae_consistent_part (o : sx) : bool :=
   let st := sx_int (sx_nth 0 o) in
-  (nonempty (sx_str (sx_nth 1 o)) && str_eqb (sx_str (sx_nth 3 o)) (bytes "hit") && Z.eqb (sx_int (sx_nth 4 o)) 0 &&
-   Z.eqb st 206 && str_eqb (sx_str (sx_nth 2 o)) s_enc_part && (0 <=? sx_int (sx_nth 5 o))%Z && Z.eqb (sx_int (sx_nth 5 o)) (sx_int (sx_nth 6 o)))
-  || (Z.eqb st 416 && Z.eqb (sx_int (sx_nth 4 o)) 0).   (* the named range lies outside the encoded entry *)
+  (nonempty (sx_str (sx_nth 1 o)) && Z.eqb st 206 && str_eqb (sx_str (sx_nth 2 o)) s_enc_part
+   && (0 <=? sx_int (sx_nth 5 o))%Z && Z.eqb (sx_int (sx_nth 5 o)) (sx_int (sx_nth 6 o)))
+  || Z.eqb st 416.   (* the named range lies outside the encoded entry *)
 
 Definition proj_aecache (x o : sx) : sx :=
   L (map (fun p => if nonempty (fst p) && ae_consistent_part (snd p) then s_enc_slice else snd p)
